@@ -108,6 +108,7 @@ class Gen:
             "argrename": r.random() < 0.3,
             "twins": r.random() < 0.3,
             "nops": r.randint(10, MAX_OPS[tier]),
+            "mutants": r.random() < 0.4,
         }
         base_w = {
             "compile_str": 5.0, "compile_callable": 1.5, "compile_defs": 2.5, "compile_param": 1.2, "param_defs": 1.0,
@@ -132,6 +133,7 @@ class Gen:
         self.recompiles = {}
         self.side = {}
         self.interesting = []
+        self.recent = []  # (name, src, meta) of the string/callable compiles so far: bases of near-twins
 
     # -- helpers
     def pick_name(self):
@@ -146,6 +148,20 @@ class Gen:
     def corpus_prog(self):
         r = self.r
         src_pool = progs.FAST if self.cfg["cache"] in ("off", 8) else progs.OK
+        if self.cfg.get("mutants") and r.random() < 0.4:
+            # a near-twin (one AST mutation) of a program compiled earlier in this history, under the SAME name --
+            # or of a fresh one, in which case the original follows or precedes it by the ordinary re-use of names
+            if self.recent and r.random() < 0.65:
+                name, bsrc, bmeta = r.choice(self.recent[-6:])
+            else:
+                p = r.choice(src_pool)
+                name, bsrc, bmeta = None, p["src"], p
+            m = progs.mutate(bsrc, bmeta, r)
+            if m is not None:
+                meta = dict(m[1])
+                if name is not None:
+                    meta["keepname"] = True
+                return m[0], meta
         if self.cfg["grammar"] and r.random() < 0.35:
             src, meta = progs.grammar(r, name="f", max_bits=8)
             return src, meta
@@ -227,6 +243,8 @@ class Gen:
         if meta.get("twin"):
             name = r.choice(["sel", "sel", "h"])
             src = progs.rename(src, name)
+        elif meta.get("keepname"):
+            pass
         elif r.random() < 0.6:
             name = self.pick_name()
             src = progs.rename(src, name)
@@ -254,6 +272,8 @@ class Gen:
             kind = "compile_str"
         a["defs"] = []
         self.note_name(name, src)
+        if not rejected and not meta.get("twin") and meta.get("in_bits", 99) <= 12:
+            self.recent.append((name, src, {k: v for k, v in meta.items() if k != "keepname"}))
         m2 = dict(meta)
         m2["compiled"] = a["to_compile"] or a["via"] == "deco"
         self.add(kind, a, [], s, "none" if rejected else "qf", m2, name, digest(src, 8))
